@@ -4,14 +4,57 @@
    spec_* are list-level definitions (Python list indexing / slicing, filter, hd, last, firstn). *)
 From Coq Require Import ZArith List Bool.
 From V Require Import rcache.PyList rcache.RCacheModel rcache.RCacheSpec rcache.RQueryModel rcache.RQuerySpec
-  rcache.RQueryThm rcache.RCacheThm rcache.RCacheQuery.
+  rcache.RQueryThm rcache.RCacheThm rcache.RCacheQuery rcache.RSliceSpec.
 From V Require rr.RRBase rr.RRNorm rcache.RReplace rcache.RReplaceThm rcache.RRInitBase gen.RRInitGen rcache.RRInitGenThm.
 From V Require Import rcache.RGenBase gen.RQueryGen rcache.RQueryGenThm.
 Import ListNotations.
 Open Scope Z_scope.
 
-(* rule[i] = L[i], rule[a:b:c] = L[a:b:c]; IndexError / ValueError exactly when the list raises; any
-   int, any None/negative/positive slice components and steps; both paths.  No hypothesis on L. *)
+(* rule[i], rule[a:b:c] -- the MAIN statement, against a reference that is NOT built from PyList.py_slice /
+   py_index (rcache/RSliceSpec.v, written from the Python language reference):
+     rule[k]     = nth_error L k for 0 <= k < n, nth_error L (n + k) for -n <= k < 0, IndexError otherwise;
+     rule[a:b:c] = ValueError when c = 0; otherwise the list whose m-th element is L[i + m*k] for exactly the m
+                   with i + m*k before j (k > 0: < j, k < 0: > j), where k = c or 1, and i, j are a, b made
+                   relative to the end when negative and clamped to [0, n] (k > 0) / [-1, n-1] (k < 0), or the
+                   end values 0 / n (k > 0), n-1 / -1 (k < 0) when omitted (ap_bounds, ap_sel).
+   For ALL lists, ALL ints, ALL None / negative / positive components and steps, BOTH code paths (cache-complete
+   list path and generator path: get_loop, islice, list(iter(self))[item]). *)
+Theorem C12_getitem_python_reference : forall complete l it,
+  match it with
+  | IInt k =>
+      getitem complete l it = match spec_index l k with Some v => QVal v | None => QIndexError end
+  | ISlice a b c =>
+      match ap_bounds (zlen l) a b c with
+      | None => getitem complete l it = QValueError
+      | Some (i, j, k) =>
+          exists r, getitem complete l it = QList r /\
+                    forall m : nat, nth_error r m =
+                                    if ap_sel i j k m then nth_error l (Z.to_nat (i + Z.of_nat m * k)) else None
+      end
+  end.
+Proof. exact getitem_python_reference. Qed.
+Print Assumptions C12_getitem_python_reference.
+
+(* the list primitives of PyList.v (used by the model AND by spec_getitem) are that reference *)
+Theorem C12_slice_is_arithmetic_progression : forall l a b c,
+  match ap_bounds (zlen l) a b c, py_slice l a b c with
+  | None, None => True
+  | Some (i, j, k), Some r =>
+      forall m : nat, nth_error r m =
+                      if ap_sel i j k m then nth_error l (Z.to_nat (i + Z.of_nat m * k)) else None
+  | _, _ => False
+  end.
+Proof. exact py_slice_is_ap. Qed.
+Print Assumptions C12_slice_is_arithmetic_progression.
+
+Theorem C12_index_is_reference : forall l k, py_index l k = spec_index l k.
+Proof. exact py_index_is_spec. Qed.
+Print Assumptions C12_index_is_reference.
+
+(* TIE ONLY (evidence: tie_only).  spec_getitem IS py_getitem, and the model returns py_getitem itself on the
+   complete path, for negative ints and for slices with a negative component: for those cases this statement is
+   x = x.  Its content is get_loop = py_index (k >= 0) and islice = py_slice (non-negative components); the
+   meaning of py_index / py_slice is C12_getitem_python_reference above. *)
 Theorem C12_getitem : forall complete l it, getitem complete l it = spec_getitem l it.
 Proof. exact getitem_correct. Qed.
 Print Assumptions C12_getitem.
@@ -26,6 +69,27 @@ Theorem C12_contains : forall complete l x, incr l -> contains complete l x = sp
 Proof. exact contains_correct. Qed.
 Print Assumptions C12_contains.
 
+(* count() == len(L).  Cached rule: `_len` is a FIELD (lenp) of C11's shared state, None until the generator's
+   last statement publishes the number of items it yielded; in every state reachable under ANY schedule and ANY
+   other operations a finished count() returned |seq| -- read from that field, not assumed. *)
+Theorem C12_count_is_number_yielded : forall seq ops sched t th,
+  nth_error (thr (reach seq ops sched)) t = Some th -> t_op th = OCount -> t_pc th = PDone ->
+  t_res th = Some (Ret [Z.of_nat (length seq)]).
+Proof. exact count_returns_length. Qed.
+Print Assumptions C12_count_is_number_yielded.
+
+(* Uncached rule: the only state is `_len`.  After ANY history of calls (true = the call ran the generator to
+   exhaustion and so executed its final `self._len = total`, false = it did not) the GENERATED count() returns
+   |L|.  ASSUMPTION carried by RGenBase.published: an exhausted generator assigns total = number of items it
+   yielded (rrule._iter / rruleset._iter, last statement) -- proved for the cached path above, checked
+   differentially for the uncached one (check_C12 modes uncached / uncached_mid / *_len_known_by_*: count()
+   among shuffled queries on one shared object). *)
+Theorem C12_gen_count_after_any_history : forall l h, gen_count (ulen_after l h) l = QVal (zlen l).
+Proof. exact gen_count_after_any_history. Qed.
+Print Assumptions C12_gen_count_after_any_history.
+
+(* TIE ONLY (evidence: tie_only): count l and spec_count l are both zlen l; kept as the name the extraction and
+   the harness use.  The content of "count() is len(L)" is the two theorems above. *)
 Theorem C12_count : forall l, count l = spec_count l.
 Proof. exact count_correct. Qed.
 Print Assumptions C12_count.
@@ -47,6 +111,10 @@ Theorem C12_between : forall complete l a b inc, incr l ->
 Proof. exact between_correct. Qed.
 Print Assumptions C12_between.
 
+(* PARTLY TIE (evidence: tie_only): before / after / between / xafter run the SAME loop on `self._cache` or on
+   `self` (faithful to the source), so four of the six conjuncts are reflexivity; the content is the getitem
+   and contains conjuncts (list indexing / `in` on the complete cache vs get_loop / islice / the early-exit
+   loop of the generator path). *)
 Theorem C12_cached_path_eq_gen_path : forall l, incr l ->
   (forall it, getitem true l it = getitem false l it) /\
   (forall x, contains true l x = contains false l x) /\
@@ -88,11 +156,34 @@ Print Assumptions C12_slice_meaning.
    r and ALL updates u (any subset of freq, dtstart, interval, wkst, count, until, every BY-part set / changed /
    removed) the replaced rule is the constructor applied to the original arguments with the named ones
    changed.  replace_guard excludes exactly the open finding F-C12-replace-nth (weekday occurrence number
-   on a rule with freq > MONTHLY, new freq <= MONTHLY, byweekday not named) and the bysetpos=() corner. *)
+   on a rule with freq > MONTHLY, new freq <= MONTHLY, byweekday not named: refuted below) and the bysetpos=()
+   corner, which is no finding and is proved below (C12_replace_setpos_empty). *)
 Theorem C12_replace_only_named : forall r u,
   RReplaceThm.replace_guard r u -> RReplace.replace r u = RReplace.replace_spec r u.
 Proof. exact RReplaceThm.replace_only_named. Qed.
 Print Assumptions C12_replace_only_named.
+
+(* the bysetpos=() corner excluded by replace_guard: a rule built with bysetpos=() records nothing
+   (`if bysetpos:`), so replace() yields EXACTLY the rule built from the original arguments with bysetpos
+   omitted and the named ones changed; that rule differs from the one built with bysetpos=() in the single
+   attribute `_bysetpos` (None instead of ()), errors included.  rr/RRIter.v reads that attribute only through
+   its truthiness, false for both; the replace stream compares the occurrences (base rule with bysetpos=()). *)
+Theorem C12_replace_setpos_empty : forall r u,
+  RRNorm.r_bysetpos r = Some [] -> RReplace.u_bysetpos u = None ->
+  (RReplace.u_byweekday u <> None \/ RReplaceThm.wd_guard r (RReplace.ov (RReplace.u_freq u) (RRNorm.r_freq r))) ->
+  RReplace.replace r u = RReplace.replace_spec (RReplaceThm.clear_setpos r) u /\
+  RReplace.apply_upd (RReplaceThm.clear_setpos r) u = RReplaceThm.clear_setpos (RReplace.apply_upd r u).
+Proof. exact RReplaceThm.replace_setpos_corner. Qed.
+Print Assumptions C12_replace_setpos_empty.
+
+Theorem C12_normalize_setpos_empty : forall x, RRNorm.r_bysetpos x = Some [] ->
+  RRNorm.normalize (RReplaceThm.clear_setpos x) =
+  match RRNorm.normalize x with
+  | RRBase.Ok ru => RRBase.Ok (RReplaceThm.rule_clear_setpos ru)
+  | RRBase.Err e => RRBase.Err e
+  end.
+Proof. exact RReplaceThm.normalize_setpos_empty. Qed.
+Print Assumptions C12_normalize_setpos_empty.
 
 Theorem C12_replace_nth_refuted :
   RReplace.replace (RReplaceThm.mk_raw0 RRBase.WEEKLY None (Some [(0, 1)])) (RReplaceThm.upd_freq RRBase.MONTHLY) <>
@@ -122,6 +213,7 @@ Theorem C12_gen_contains : forall complete l x, gen_contains complete l x = QBoo
 Proof. exact gen_contains_eq. Qed.
 Print Assumptions C12_gen_contains.
 
+(* hypothesis discharged for every history by C12_gen_count_after_any_history *)
 Theorem C12_gen_count : forall len l, len = None \/ len = Some (zlen l) -> gen_count len l = QVal (count l).
 Proof. exact gen_count_eq. Qed.
 Print Assumptions C12_gen_count.
